@@ -51,7 +51,7 @@ func init() {
 				Bound:  "config symbolic over all valid (object,index,channels); raw length in {1,2,3,24,25,248,249,2040,2041,8183,8184}; raw bytes all symbolic up to 16 bytes, beyond that 5 symbolic positions (first two, middle, last two)",
 				BoundT: "as quick, with every raw length 1..512 and every multiple of 64 (and its neighbours) up to 8184"},
 			{Pkg: "aac", Func: "HarnessC11_Concat", Labels: []string{"concat"},
-				Bound: "2 frames (thorough: 2-3), each with symbolic valid config and 1-3 (thorough 1-4) symbolic raw bytes"},
+				Bound: "2 frames (thorough: 2-3), each with symbolic valid config and 1-3 symbolic raw bytes"},
 			{Pkg: "aac", Func: "HarnessC11_RefDecode", Labels: []string{"refdecode-crc", "refdecode-nocrc"},
 				Bound: "independent ISO 13818-7 writer: id, protection_absent, private/original/home/copyright bits, 11-bit fullness, 2 CRC bytes symbolic; profile Main/LC/SSR x index 1..12 x channels 1..7 symbolic; raw 1-4 symbolic bytes; 0-2 trailing symbolic bytes"},
 		},
